@@ -93,6 +93,9 @@ def emit_definition(d, attrs=None, extras=None, vis="pub ", styles=None):
     inserted before the attribute at that position (position len(attrs) = before struct)."""
     attrs = d["attrs"] if attrs is None else attrs
     extras = extras or {}
+    if d.get("interleave") and not extras:
+        # foreign attributes between the unit descriptions (doc comments, lint attributes), as documented definitions have them
+        extras = {pos: ["/// about the next unit" if pos % 2 else "#[allow(dead_code)]"] for pos in range(1, len(attrs))}
     styles = styles or {}
     lines = []
     if d.get("derived"):
